@@ -2,6 +2,43 @@
 from specs import snapshot, restore, c01_lemmas
 
 LEVEL = 'proof'
-UNITS = [snapshot.chunk_done_unit('C01'), snapshot.stream_unit('C01'), snapshot.producer_unit('C01'), restore.write_part_unit('C01'), restore.plan_unit('C01'), restore.write_ref_unit('C01'), snapshot.flatten_unit('C01'), c01_lemmas.lemmas('C01')]
-TRUSTED = []
-ASSUMPTIONS = []
+UNITS = [
+    snapshot.flatten_unit('C01'),
+    snapshot.stream_unit('C01'),
+    snapshot.producer_unit('C01'),
+    snapshot.chunk_done_unit('C01'),
+    restore.plan_unit('C01'),
+    restore.write_ref_unit('C01'),
+    restore.write_part_unit('C01'),
+    c01_lemmas.lemmas('C01'),
+]
+BOUNDED = [
+    {'name': 'C01.e2e', 'script': 'bounded/c01_e2e.py', 'timeout': 1200,
+     'bound': '<= 4 files; sizes from the boundary family around alignment 4, min, max, 2*max (max <= 64); '
+              'argument lists with repeats/overlaps/symlinks; pre-existing targets absent/shorter/equal/longer; '
+              'encrypted x {aes_gcm, chacha20} x {blake2b, sha2, sha3}; concurrency 1,2,5; thorough adds 150 seeded random cases. '
+              'The 16 MiB read piece of _stream_files is NOT reached (a closure default that cannot be shrunk without editing /repo).'},
+]
+TRUSTED = [
+    'vf symbolic executor (/verif/vf): encoding of the Python subset (DESIGN 2.2)',
+    'z3 5.1 (API + z3-new CLI), cvc5 1.0.3 (strings)',
+    'assumed library contracts: bisect.bisect_left, dict insertion order, dict.fromkeys, sorted(key=), io file semantics (seek/truncate/write)',
+]
+ASSUMPTIONS = [
+    'chunker contract C10 (chunks non-empty, concatenation = stream) is used as the iteration domain of _chunk_producer',
+    'A-aead / A-collision for the crypto primitives (uninterpreted H, ENC, DEC, KDF, MAC)',
+    'A-tiling: consecutive non-empty chunks covering [0,total) are used as a function chunk_of(position) in the lemmas (induction over chunks not done by the solver)',
+    '_chunk_done is atomic w.r.t. the producer for files with start <= chunk end (queue.Queue happens-before; stated, not proved)',
+    'files do not change during the snapshot (premise of the property)',
+    'symlinked *file* arguments are recorded under the resolved path (read as the file\'s original path)',
+    'os.truncate / os.utime / pathlib behave as documented',
+]
+MANIFEST = {
+    'text': 'Contract-based deductive proof (own VC generator over the real source, z3/cvc5) of the offset/range/plan/write '
+            'bookkeeping of snapshot and restore for all file sizes, chunk boundaries and table contents, plus tiling/round-trip '
+            'lemmas over those contracts; composition with real threads, chunker and crypto is covered by a labelled bounded stand-in.',
+    'note': 'Trusted: vf engine encoding, SMT solvers, assumed library/crypto contracts (see evidence.assumptions). '
+            'Bounded stand-in C01.e2e is not counted as proved. Known finding D3 (all-empty tree) is reported by the stand-in.',
+    'technique': 'contract-based deductive verification: sidecar contracts + loop invariants on the real functions, VCs by symbolic execution of the AST, discharged by z3/cvc5',
+    'design_ref': 'DESIGN.md 6/C01',
+}
